@@ -33,6 +33,12 @@ CHECKS = {
             "by TLC with the G1 lines and interpreter positions, in the model and on real executions.", "5 C20", BUILDER_NOTE),
 }
 
+CHECKS["C13"] = ("TLC explores the transform state machine (stack, named states, context-manager copies, Python object "
+                 "aliasing as an explicit variable) on the integer sub-group; on real executions TLC compares the observed "
+                 "map (probe images through apply_transform/reverse_transform) after every call with the contract's stack / "
+                 "named / context semantics and, on the integer sub-group, with the matrix the specification composes itself.",
+                 "5 C13", "Trusted: Transform.tla's matrix algebra; 5 probe points determine the affine map; TLC.")
+
 NOT_YET = {}
 
 
